@@ -25,7 +25,7 @@ THOROUGH_EXTRA_SEEDS = 2
 ALSO = {"quick": [], "thorough": ["harness.props.hv20"]}
 REQUIRED = ["BoundsArg", "GeometryArg", "GeoJson", "Cli", "is-bounds", "not-bounds", "underscore", "spaces", "five-numbers",
             "geojson-string", "geojson-file.geojson", "geojson-file.json", "geojson-valid", "geojson-invalid",
-            "cmd-clip", "cmd-extract-points", "cmd-export-geometry", "flag-first-row-misses", "flag-last-row-misses", "flag-ext-fragment", "flag-work-dir-reused", "request-good", "request-bad", "library-fails",
+            "cmd-clip", "cmd-extract-points", "cmd-export-geometry", "flag-first-row-misses", "flag-last-row-misses", "flag-ext-fragment", "flag-work-dir-reused", "flag-duplicate-rows", "request-good", "request-bad", "library-fails",
             "flag-policy-error", "flag-policy-drop", "flag-policy-fill", "flag-format-geojson", "flag-format-shapefile",
             "flag-format-wkt", "flag-format-wkb", "flag-format-auto",
             "conv-cf1d", "conv-cf2d", "conv-shoc_simple", "conv-shoc_standard", "conv-ugrid"]
@@ -122,6 +122,11 @@ def cases(tier: str, seed: int) -> list[dict]:
         hits = GW.inner_points(w)[:3]
         cli.append({"cmd": "extract-points", "points": [GW.far_point(w)] + hits, "policy": "error", "flags": ["policy-error", "first-row-misses"], "request": "good"})
         cli.append({"cmd": "extract-points", "points": hits + [GW.far_point(w)], "policy": "error", "flags": ["policy-error", "last-row-misses"], "request": "good"})
+        # a station listed twice (two identical rows) with further rows after it
+        if len(hits) >= 2:
+            for policy in ("error", "fill"):
+                cli.append({"cmd": "extract-points", "points": [hits[0], hits[1], hits[1], hits[0], hits[-1]], "policy": policy,
+                            "flags": ["policy-" + policy, "duplicate-rows"], "request": "good"})
         inside = [p for p in pts][:3]
         cli.append({"cmd": "extract-points", "points": inside, "policy": "fill", "flags": ["policy-fill", "custom-dim"], "dim": "station", "request": "good"})
         for fmt, ext in (("geojson", "geojson"), ("shapefile", "shp"), ("wkt", "wkt"), ("wkb", "wkb")):
@@ -328,7 +333,7 @@ def execute(case: dict) -> dict:
             with open(csv, "w") as f:
                 f.write("name,lon,lat\n")
                 for k, p in enumerate(e["points"]):
-                    f.write(f"p{k},{p[0] * SCALE!r},{p[1] * SCALE!r}\n")
+                    f.write(f"s{p[0]}_{p[1]},{p[0] * SCALE!r},{p[1] * SCALE!r}\n")      # (a station listed twice gives two identical rows)
             argv = ["extract-points", str(inp), str(csv), str(out), "--missing-points", e["policy"]]
             if e.get("dim"):
                 argv += ["-d", e["dim"]]
